@@ -390,17 +390,27 @@ structure PState where
   /-- `self.0.span()`: the logos span (start, end) of the last `next()` -/
   lastStart : Nat
   lastEnd : Nat
-  /-- `self.0.source().len()` -/
+  /-- `self.0.source()` and its length in bytes -/
+  src : Str
   srcLen : Nat
 deriving Inhabited
 
 /-- `Lexer::new` after the screen -/
-def PState.init (src : Str) : PState := ⟨tokenize src, 0, 0, utf8Len src⟩
+def PState.init (src : Str) : PState := ⟨tokenize src, 0, 0, src, utf8Len src⟩
+
+/-- the character of `s` (starting at byte `pos`) whose bytes contain byte offset `b`:
+its offset and its length; `(pos, 0)` when there is none -/
+def charAt (b : Nat) : Nat → Str → Nat × Nat
+  | pos, [] => (pos, 0)
+  | pos, c :: r => if b < pos + c.utf8Size then (pos, c.utf8Size) else charAt b (pos + c.utf8Size) r
 
 /-- `Lexer::span`: the span of the last token, except that a span touching the end of the
-source is replaced by the one byte before its start -/
+source is replaced by the character that contains the byte before its start (the last
+character of the source at end of input; the empty span for an empty source) -/
 def PState.span (st : PState) : Span :=
-  if st.lastEnd = st.srcLen then ⟨st.lastStart - 1, 1⟩
+  if st.lastEnd = st.srcLen then
+    let (start, len) := charAt (st.lastStart - 1) 0 st.src
+    ⟨start, len⟩
   else ⟨st.lastStart, st.lastEnd - st.lastStart⟩
 
 /-- `Lexer::peek` -/
